@@ -241,10 +241,18 @@ func TestC05Messages(t *testing.T) {
 			tv := gen.Voucher(r, string(p.voucher.Type))
 			if p.role.Initiator {
 				e1 := f.m.SendVoucherResult(bg, p.chid, tv)
-				e2 := f.m.UpdateValidationStatus(bg, p.chid, datatransfer.ValidationResult{Accepted: true, DataLimit: 5})
+				// every shape of validation update: accepting (with and without a result, limit, pause,
+				// finalization) and rejecting - an initiator may send none of them
+				upd := []datatransfer.ValidationResult{
+					{Accepted: true, DataLimit: 5},
+					{Accepted: true, VoucherResult: &tv, ForcePause: true, RequiresFinalization: true},
+					{Accepted: false},
+					{Accepted: false, VoucherResult: &tv},
+				}[r.Intn(4)]
+				e2 := f.m.UpdateValidationStatus(bg, p.chid, upd)
 				settle()
 				if e1 == nil || e2 == nil {
-					c.Violation("C05", "initiator-sent-result-or-validation", "initiator could SendVoucherResult (%v) / UpdateValidationStatus (%v)", e1, e2)
+					c.Violation("C05", "initiator-sent-result-or-validation", "initiator could SendVoucherResult (%v) / UpdateValidationStatus%+v (%v)", e1, upd, e2)
 				}
 			} else {
 				e := f.m.SendVoucher(bg, p.chid, tv)
